@@ -106,6 +106,19 @@ LOOPS.  K, the CONTINUATION CONTEXT, says what `return v`, the end of the statem
   ⟦if c: A else: B ; rest⟧ when A, B contain no return/break/continue, rest contains a loop, and every variable A, B bind is
     already bound (or declared `unbound[τ]`): translated WITH A JOIN instead of duplicating rest —
         Py.bind (if c then ⟦A⟧_join else ⟦B⟧_join) fun j => let x₁ := j.1; …; ⟦rest⟧_K      (⟦·⟧_join: end ↦ .ok (x₁, …))
+RECORDS AND OBSERVATION LISTS (objects that are only READ; table VIEWS below).  `record[V]`: an object seen through the DECLARED
+  access paths of view V (attributes and argument-less accessors, ASSUMED pure): the tuple of those components. `objlist[V]`: a
+  Track seen as the list of its observations (`X.getObs(e)`, `X[e]`: Py.getIdx — Python indexing, IndexError; `X.getFirstObs()`,
+  `X.getLastObs()`: elements 0 and len-1; `X.size()`, `len(X)`: the length); `list[record[V]]`: a Python list of such objects.
+  `r.p.q()` for a record-valued r (a local bound to one, an element of an observation list) and a declared path `p.q()` (possibly
+  through a record-valued component into ITS view) is the component. A component of type `object[C]` is an object value: its
+  methods and `+`/`-` are resolved statically to C's translated methods, in whichever whitelisted file defines C. A method call /
+  `-` on a record is resolved to the translated method of the view's "__class__"; the callee's declared attributes must be
+  declared paths of the caller's view, with the same types. A record can be bound to a local, appended to a list, put in a list
+  display, passed to such a method, returned inside a list — nothing else (no store into it, no alias of a mutable thing).
+  `isinstance(p, C)` on a never-rebound PARAMETER p is decided from p's declared kind (`list[…]` is a list, `objlist[…]` a Track,
+  a declared float is "int or float": only the disjunction of both tests is accepted) and an `if` on such a test is replaced by the
+  branch taken (this is what makes the VARIANTS of one function under different declared argument types).
 DECLARATIONS IN THE SIGNATURE (7th component, a dict, and the `locals` dict) — each is an ASSUMPTION to be read with the tie:
   locals {"x": "float" | "int"}            type of a local bound to a bare integer literal (`somme = 0` later added to floats)
   locals {"x": "list[float]"}              element type of a list created empty (`x = []`) and needed before its first append
@@ -113,6 +126,15 @@ DECLARATIONS IN THE SIGNATURE (7th component, a dict, and the `locals` dict) —
   {"assume_identity": ["listify"]}         on a list argument the call returns the argument itself (tracklib's `listify`)
   {"assume_noop": ["Obs.__check_call_geom1"]}   a call statement of this function returns normally and has no effect (an
                                            argument check that only raises for classes outside the declared ones)
+  {"assume_identity_methods": ["copy"]}    `r.copy()` on a record is the record (records are values in the translation)
+  {"assume_noop_stmts": ["interp_points[0].features = []"]}   this exact statement has no effect on what the function reads later
+  {"make": {"Obs(ENUCoords(_, _, _), ObsTime.readUnixTime(_))": "Obs"}}   CONSTRUCTOR PATTERN: an expression of exactly this shape
+                                           builds a record of view Obs whose leaves are the hole expressions in order (here the time
+                                           component is the ARGUMENT of readUnixTime, the un-stamped instant, as in Model/Resample.lean)
+  {"result_call": "track.setObsList"}      the function's only effect is this call, which must be its LAST statement; its
+                                           argument is translated as the function's return value
+  {"variants": {"prepareTimeSampling": "prepareTimeSampling_number"}}   which of several translations of a callee (same Python
+                                           function, different declared argument types) this function's call is
   {"imports": {"f": "util/geometry.py"}}   the name f, which this file binds by exactly one `from … import f` and nowhere else at
                                            module level, IS the whitelisted function f of that file (cross-file call; the generated
                                            module imports the other generated module and calls `TV.Gen.<Module>.f`)
